@@ -7,7 +7,7 @@
    (wait tasks for a do handler, halt tasks for an undo handler) at the instant of the start. *)
 From Coq Require Import List NArith ZArith Bool.
 Import ListNotations.
-Require Import V.models.TaskEngine V.proofs.TaskEngineProofs V.proofs.TaskEngineReady V.proofs.TaskEngineDoing.
+Require Import V.models.TaskEngine V.proofs.TaskEngineProofs V.proofs.TaskEngineReady V.proofs.TaskEngineDoing V.proofs.TaskEngineFuel V.proofs.TaskEngineLive.
 
 (* Every handler start in every execution: the schedule gate was open (not before Task.atTime), and when the start
    is a fresh one (the Do->Doing or Undo->Undoing write) a do handler saw all its wait tasks Done and an undo handler
@@ -27,15 +27,13 @@ Print Assumptions C02_fresh_start_requires_prereqs.
    Doing has all wait tasks Done: an abort that moves a wait task Done->Undo also moves every task waiting on it
    Doing->Abort (worklist closure of abortTasks under halt edges). Over every non-empty graph and every event list in
    which user aborts are issued on unready changes only (guarded: the REST API's rule, the property's quantifier).
-   The hypothesis  oof = false  says that no fuel bound of the MODEL (abort nesting depth, worklist length) was hit;
-   that these bounds suffice is not proved - a hit is reported by the correspondence as a mismatch. *)
+   No fuel hypothesis any more: the model's fuel bounds are never hit (C01_abort_fuel / TaskEngineFuel.oof_never). *)
 Theorem C02_rerun_do_sees_prereqs_done : forall (g : list tdesc) (es : list event),
   g <> [] -> guarded (init_state g) es ->
   let s := run_events (init_state g) es in
-  oof s = false ->
   (forall t w, st s t = Doing -> In w (t_waits (get s t)) -> st s w = Done) /\
   Forall (fun r : start_rec => sr_undo r = false -> forallb (fun x => seqb x Done) (sr_pre r) = true) (slog s).
-Proof. exact doing_prereqs_done. Qed.
+Proof. exact doing_prereqs_done_total. Qed.
 Print Assumptions C02_rerun_do_sees_prereqs_done.
 
 (* Undo side, re-runs: KNOWN FINDING undo-rerun-sees-handlerless-dependent-in-undo. The literal statement `every
